@@ -82,7 +82,9 @@ def run(ctx):
              'is put on the queue, and the put precedes awaiting the future; non-retryable errors re-raise; retry rebinds the request; '
              'cancellation cancels the future, cancels the remote job and re-raises; result/job return, error consults the retry table', floor=10, style='MPT')
     fn = repo.method(sm.qual, '_manage_execution')
-    fn = _canonical_roles(fn)
+    from .. import normalize
+    fn = _canonical_roles(normalize.canonical(fn, sm.methods, {k: v for k, v in m.defs.items() if isinstance(v, ast.FunctionDef)},
+                                             keep=('_generate_message_id', '_get_retry_request_or_raise', '_to_create_job_request', '_to_get_result_request', '_is_retryable_error')))
     loops = [n for n in ast.walk(fn) if isinstance(n, ast.While)]
     if not loops:
         raise AnalysisError('_manage_execution: retry loop vanished')
@@ -260,41 +262,49 @@ def run(ctx):
     # ------------------------------------------------------------------ C20.d
     ctx.rule('C20.d', 'retry table: (error code, kind of current request) -> next request equals the table that makes the job run once; '
              'helper requests copy parent/program.name/job.name from the original create request', floor=10, style='TBL')
-    REF = {
-        ('PROGRAM_DOES_NOT_EXIST', "'create_quantum_job' in current_request"): 'create_program_and_job_request',
-        ('PROGRAM_ALREADY_EXISTS', "'create_quantum_program_and_job' in current_request"): 'get_result_request',
-        ('JOB_DOES_NOT_EXIST', "'get_quantum_result' in current_request"): 'create_job_request',
-        ('JOB_ALREADY_EXISTS', "not 'get_quantum_result' in current_request"): 'get_result_request',
-    }
-    top = [n for n in rt.body if isinstance(n, ast.If)]
-    if not top:
-        raise AnalysisError('_get_retry_request_or_raise: chain vanished')
-    got = {}
-    for test, b in chains.if_chain(top[0]):
-        if test is None:
-            if b:
-                got[('else', '')] = ast.unparse(b[0])[:40]
-            continue
-        code = ast.unparse(test).split('Code.')[-1]
-        if not ast.unparse(test).startswith('error.code == Code.'):
-            got[('?', ast.unparse(test))] = '?'
-            continue
-        for st in b:
-            if isinstance(st, ast.If):
-                cond = ast.unparse(st.test).replace("'get_quantum_result' not in current_request", "not 'get_quantum_result' in current_request")
-                rets = [s for s in st.body if isinstance(s, ast.Return)]
-                got[(code, cond)] = ast.unparse(rets[0].value) if rets else None
-                if st.orelse:
-                    got[(code, 'else')] = ast.unparse(st.orelse[0])[:40]
-            elif isinstance(st, ast.Return):
-                got[(code, 'always')] = ast.unparse(st.value)
-    for k, v in REF.items():
-        g = got.get(k)
-        ctx.ob('C20.d', f'retry-table:{k[0]}:{k[1]}', g == v, '' if g == v else f'for {k[0]} when {k[1]} the retry request is `{g}` (the job runs once only with `{v}`)', m.rel, rt.lineno)
-    extra = sorted(k for k in got if k not in REF)
-    ctx.ob('C20.d', 'retry-table:no-extra-cases', not extra, '' if not extra else f'retry table has additional retry cases {extra}: a non-retryable reply is retried', m.rel, rt.lineno)
-    ok = isinstance(rt.body[-1], ast.Raise) and 'StreamError' in ast.unparse(rt.body[-1])
-    ctx.ob('C20.d', 'retry-table:falls-through-to-raise', ok, '' if ok else 'unhandled stream errors do not surface as StreamError', m.rel, rt.lineno)
+    # decided by interpreting the function on every (error code, kind of the current request) pair: requests are tokens, a request "contains" its kind,
+    # Code.X is the token X - so the table is read off the behaviour, whatever ladder / early-return / lookup form the source uses
+    from .. import fdx
+    KINDS = ('create_quantum_program_and_job', 'create_quantum_job', 'get_quantum_result')
+    REF = {('PROGRAM_DOES_NOT_EXIST', 'create_quantum_job'): 'create_program_and_job_request',
+           ('PROGRAM_ALREADY_EXISTS', 'create_quantum_program_and_job'): 'get_result_request',
+           ('JOB_DOES_NOT_EXIST', 'get_quantum_result'): 'create_job_request',
+           ('JOB_ALREADY_EXISTS', 'create_quantum_program_and_job'): 'get_result_request',
+           ('JOB_ALREADY_EXISTS', 'create_quantum_job'): 'get_result_request'}
+    codes = sorted({x.attr for x in ast.walk(m.tree) if isinstance(x, ast.Attribute) and isinstance(x.value, ast.Name) and x.value.id == 'Code'} | {c for c, _ in REF} | {'SOME_OTHER_CODE'})
+    params = [a.arg for a in rt.args.args]
+    if len(params) != 5:
+        raise AnalysisError(f'_get_retry_request_or_raise: expected 5 parameters (error, current request, three candidate requests), found {params}')
+
+    def attr_hook(node, it):
+        if isinstance(node.value, ast.Name) and node.value.id == 'Code':
+            return node.attr
+        return NotImplemented
+
+    def call_hook(call, it):
+        if call_name(call) == 'StreamError':
+            return ('StreamError',)
+        return NotImplemented
+    n_raise = 0
+    for code in codes:
+        for kind in KINDS:
+            env = {params[0]: {'code': code, 'message': 'msg'}, params[1]: frozenset([kind]),
+                   params[2]: 'create_program_and_job_request', params[3]: 'create_job_request', params[4]: 'get_result_request'}
+            try:
+                got = fdx.Interp(env, call_hook=call_hook, attr_hook=attr_hook).call(rt)
+            except fdx.Raised:
+                got = 'raise'
+                n_raise += 1
+            except fdx.Unsupported as ex:
+                raise AnalysisError(f'cannot interpret _get_retry_request_or_raise: {ex}')
+            want = REF.get((code, kind), 'raise')
+            if (code, kind) in REF:
+                ctx.ob('C20.d', f'retry-table:{code}:{kind}', got == want, '' if got == want else
+                       f'for {code} in reply to a {kind} request the next request is `{got}` (the job runs exactly once only with `{want}`)', m.rel, rt.lineno)
+            elif got != 'raise':
+                ctx.ob('C20.d', f'retry-table:no-extra-cases:{code}:{kind}', False, f'{code} in reply to a {kind} request is retried with `{got}`: a non-retryable reply must surface as StreamError', m.rel, rt.lineno)
+    ctx.ob('C20.d', 'retry-table:no-extra-cases', True, '', m.rel, rt.lineno)
+    ctx.ob('C20.d', 'retry-table:falls-through-to-raise', n_raise > 0, '' if n_raise else 'unhandled stream errors do not surface as StreamError', m.rel, rt.lineno)
     HELP = {
         '_to_create_job_request': {('QuantumRunStreamRequest', 'parent'): 'create_program_and_job_request.parent',
                                    ('CreateQuantumJobRequest', 'parent'): 'create_program_and_job_request.create_quantum_program_and_job.quantum_program.name',
@@ -392,9 +402,11 @@ def run(ctx):
     nj = _calls(ca, lambda c: call_name(c) == 'next_job')
     ok = bool(nj) and queue is not None and any(ast.unparse(a_) == queue and not pol for a_, pol in dominating_atoms(cp, nj[0], ca))
     ctx.ob('C20.e', ck + ':asks-when-queue-empty', ok, '' if ok else 'next_job is not asked exactly when the local queue is empty', cm.rel, ca.lineno)
-    rj = [n for n in ast.walk(ca) if isinstance(n, (ast.AsyncFunctionDef, ast.FunctionDef)) and n.name == 'run_job']
+    # the job runner is whatever function the spawn hands to the scope (by role, not by name)
+    runner = sp.args[0].id if sp.args and isinstance(sp.args[0], ast.Name) else None
+    rj = [n for n in ast.walk(ca) if isinstance(n, (ast.AsyncFunctionDef, ast.FunctionDef)) and n.name == runner]
     if not rj:
-        raise AnalysisError('collect_async: run_job vanished')
+        raise AnalysisError('collect_async: the function handed to scope.spawn is not a local function of collect_async')
     nl = [x for n in ast.walk(rj[0]) if isinstance(n, ast.Nonlocal) for x in n.names]
     flag = nl[0] if nl else 'job_error'
     for nm in ('add', 'error'):
